@@ -23,28 +23,31 @@ from .. import common, corr_parse, gen, gram
 from ..sexp import Sym, dumps
 
 META = dict(
-    text="Lean theorems (PPProofs/Props/C12.lean), all inputs/locations/flags/fuel, all sub-expression behaviours: "
-         "parse_rename + simCheck_sound => sim_parse_eq (FULL: two object graphs related by an id renaming that preserves "
-         "every attribute the parser reads parse identically; this is the semantic content of expr*n, expr[m,n], "
-         "expr[...]/[0,...]/[1,...]/[n,...], expr[...:stop], expr|'', a+...+b and (a+b)+c == a+(b+c) == And([a,b,c]) "
-         "because the live objects built both ways have, after streamline, graphs that the Lean driver checks to be "
-         "related that way, and of copy()); frame (FULL: appending nodes that refer only to existing ids never changes "
-         "the parse of an existing id), copy_equiv (FULL for the node-level copy: a field-wise copy parses identically); "
-         "and_flatten_head / and_flatten_inner (the in-place flattening of streamline: And[pre..,And[b,ns..],post..] == "
-         "And[pre..,b,ns..,post..] at closure level under decidable flag hypotheses flattenHyp: inner And action-free, "
-         "b.callPreparse, b does not override preParse, same whitespace flags/ignorables, no _ErrorStop before a "
-         "non-empty tail); and_flatten_fails_* (proved witnesses that the equality is FALSE without them: LineStart head, "
-         "MatchFirst head). PARTIAL: and_flatten is proved for one call level (closure-generic), not lifted to whole-"
-         "table equivalence through Forward cycles; Or/Each flattening, results names (as_dict), Each (&), IndentedBlock "
-         "injection in And.streamline, documented mutators (ignore(), +=, |=, set_parse_action on the object, "
-         "parse_with_tabs, transform_string's permanent keepTabs) are outside the theorems: excluded or oracle-only.",
+    text="Lean theorems (PPProofs/Props/C12.lean) on the shared parse model, for ALL inputs, locations, flags, fuels and "
+         "sub-expression behaviours. FULL: parse_rename + simCheck_sound => sim_parse_eq (two object graphs related by an "
+         "id renaming that preserves every attribute the parser reads parse identically; with the driver-checked tie that "
+         "the live objects built by the sugar and by the spelled-out form have such graphs after streamline, this is "
+         "expr*n, expr[m,n], expr[...]/[0,...]/[1,...]/[n,...], expr[...:stop], expr|'', a+...+b, (a+b)+c == a+(b+c) == "
+         "And([a,b,c]) for operands that are not themselves unnamed Ands, and copy()/expr()); frame (appending nodes that "
+         "refer only to existing ids - what every operator, copy() and naming does - never changes the parse of an "
+         "existing id); copy_equiv (a field-wise copy of a node parses like the original). PARTIAL: and_flatten_partial "
+         "(streamline's in-place flattening: And[pre..,And[b,ns..],post..] == And[pre..,b,ns..,post..] under the "
+         "decidable flag condition flattenHyp, for any parse function that is a fixed point of _parseNoCache at the two "
+         "nodes; NOT lifted to parse g s fuel of the whole rewritten table); and_flatten_fails_lineStart / "
+         "_errorStop: proved witnesses that the equality is FALSE outside flattenHyp (replayed on the real code, "
+         "registered findings). Not in any theorem, decided by the real-code oracle only: results names (as_dict), Each "
+         "(&), Or/Each flattening, value semantics of the real mutable objects (pool fingerprints under three use "
+         "schedules). Excluded / tracked: documented mutators (ignore(), +=, |=, set_parse_action on the object, "
+         "parse_with_tabs, transform_string's permanent keepTabs), IndentedBlock's action injection in And.streamline, "
+         "and the regions of six registered findings (known_findings.json).",
     note="Trusted: Lean kernel; axioms propext/Classical.choice/Quot.sound; the shared parse model (validated "
          "differentially every run); gram.extract_multi reading the attributes of the live objects; the Python pairing "
-         "is only a candidate - simCheck is evaluated by the Lean driver. Value semantics of the REAL objects (no "
-         "operand mutated by composing/copying/naming/streamlining) is decided by the fingerprint oracle; the Lean side "
-         "proves it for the model of construction (append-only tables) and for the streamline rewrite.",
-    technique="Lean 4 proofs (renaming/simulation invariance of the parse model, frame, flattening lemma) + driver-"
-              "checked structural tie on extracted object graphs + differential fingerprint oracle on the real code",
+         "is only a candidate - simCheck/streamCheck/flattenHyp are evaluated by the compiled Lean driver. The Lean side "
+         "proves value semantics for the MODEL of construction (append-only tables) and for the streamline rewrite; "
+         "that the real operators never mutate an operand is decided by the fingerprint oracle.",
+    technique="Lean 4 proofs (renaming/simulation invariance of the parse model, frame, copy, flattening lemma + "
+              "counter-witnesses) + driver-checked structural tie on extracted object graphs + differential "
+              "fingerprint oracle on the real code",
     design="§5 C12",
 )
 
@@ -55,6 +58,12 @@ THEOREMS = [
     "PP.Parse.sim_parse_eq",
     "PP.Parse.frame",
     "PP.Parse.copy_equiv",
+    "PP.Parse.and_flatten_partial",
+    "PP.Parse.and_flatten_head_impl",
+    "PP.Parse.and_flatten_inner_step",
+    "PP.Parse.andRest_splice",
+    "PP.Parse.and_flatten_fails_lineStart",
+    "PP.Parse.and_flatten_fails_errorStop",
 ]
 
 ENTRIES = [("parse", ()), ("parseAll", ()), ("scan", (100, True, False))]
